@@ -32,7 +32,8 @@ def gen_cases(seed, tier, n):
     for i in range(n):
         rng = random.Random(seed * 7919 + i)
         if i < n_meta:
-            c = tracegen.gen_case(seed, i, tracegen.PROFILES["meta"])
+            # every third metamorphic case has a vocabulary beyond 127 symbols, different per rank (narrow local id types, wide global ids)
+            c = tracegen.gen_case(seed, i, tracegen.PROFILES["meta_bigvocab" if i % 3 == 2 else "meta"])
             c["kind"] = "meta"
             c["params"] = {"kind": "meta"}
         else:
